@@ -66,6 +66,19 @@ func main() {
 		code := r.Finish()
 		pprof.StopCPUProfile()
 		os.Exit(code)
+	case "c07worker":
+		idx, _ := strconv.Atoi(os.Args[3])
+		n, _ := strconv.Atoi(os.Args[4])
+		checks.C07Worker(os.Args[2], idx, n, len(os.Args) > 5 && os.Args[5] == "thorough")
+	case "c07clock":
+		checks.C07Clock(os.Args[2], os.Args[3])
+	case "c08sched":
+		b, _ := strconv.Atoi(os.Args[3])
+		sec, _ := strconv.Atoi(os.Args[4])
+		checks.C08SchedWorker(os.Args[2], b, sec)
+	case "c08race":
+		n, _ := strconv.Atoi(os.Args[2])
+		checks.C08RaceWorker(n)
 	case "c19worker":
 		from, _ := strconv.Atoi(os.Args[3])
 		to, _ := strconv.Atoi(os.Args[4])
